@@ -302,7 +302,8 @@ def with_attrs_and_defaults(level):
         yield D(("void",), "void", name="f", params=[D(("int",), "int", name="n"), D(spec, tname, name="a", init=init)])
 
 
-ARRAY_EXTENTS = ["2*3", "(2+1)*2", "48/(2*3)", "2*(8/2)", "7-(3-1)", "2+3*4", "(2+3)*4", "16/2/2", "16/(2/2)", "2*3+1", "9-2-3", "9-(2-3)", "(7)"]
+ARRAY_EXTENTS = ["2*3", "(2+1)*2", "48/(2*3)", "2*(8/2)", "7-(3-1)", "2+3*4", "(2+3)*4", "16/2/2", "16/(2/2)", "2*3+1", "9-2-3", "9-(2-3)", "(7)",
+                 "8- -1-1", "8 - -2 + 1", "9-+2-3", "2*-3+10", "10+-2*3", "-(-4)", "7 - -(2) - 1", "20/-2/-5", "6- -2*2", "12 / +3 / 2"]
 
 
 def array_expressions(level):
